@@ -140,6 +140,31 @@ def h1(prog: Program, chk: Check) -> None:
 
 
 # --------------------------------------------------------------------- H2
+def _feasible_defs(du: DefUse, name: str, target: int, edge_ok) -> Set[int]:
+    """Definitions of `name` that reach CFG node `target` along feasible paths."""
+    g = du.cfg
+    def_at = {}
+    for d in du.defs:
+        if d.name == name:
+            def_at[d.node] = d.id
+    seen = set()
+    work = [(g.entry, None)]
+    out = set()
+    while work:
+        node, cur = work.pop()
+        if node == target:
+            out.add(cur)
+            continue
+        if node in def_at:
+            cur = def_at[node]
+        for (b, l) in g.succ[node]:
+            if not edge_ok(node, b, l) or (b, cur) in seen:
+                continue
+            seen.add((b, cur))
+            work.append((b, cur))
+    return out
+
+
 def _env_direction(prog: Program, reverse_value: bool) -> Tuple[str, str]:
     """Order in which _apply_pt_mpos visits the environments for a given
     constant value of its `reverse` parameter ('asc' | 'desc')."""
@@ -157,57 +182,50 @@ def _env_direction(prog: Program, reverse_value: bool) -> Tuple[str, str]:
             return reverse_value
         return ae.UNKNOWN
     feas = ae.feasible_edges(g, lookup)
-    reach = g.reachable([g.entry], edge_ok=feas)
-    it = loop.ast.iter
-    flips = 0
-    base = it
-    name = None
-    # unwrap the iterable expression
-    for _ in range(4):
-        if isinstance(base, ast.Call) and dotted(base.func) == "reversed":
-            flips += 1
-            base = base.args[0]
-        elif isinstance(base, ast.Subscript) and isinstance(base.slice, ast.Slice) \
-                and base.slice.step is not None and norm(base.slice.step) == "-1":
-            flips += 1
-            base = base.value
-        elif isinstance(base, ast.Call) and dotted(base.func) == "list":
-            base = base.args[0]
-        else:
-            break
-    if isinstance(base, ast.Name):
-        name = base.id
-        ds = [d for d in du.reaching(loop.id, name) if d.node in reach]
-        if len(ds) != 1 or ds[0].value is None:
-            raise AnalysisError("H2: the environment list iterated in _apply_pt_mpos has no "
-                                "unique definition")
-        v = ds[0].value
-        for _ in range(4):
-            if isinstance(v, ast.Call) and dotted(v.func) == "reversed":
-                flips += 1
-                v = v.args[0]
-            elif isinstance(v, ast.Call) and dotted(v.func) == "list":
-                v = v.args[0]
-            else:
-                break
-        base = v
-        # in-place reversals on feasible paths between the definition and the loop
-        for n in g.nodes:
-            if n.id in reach and n.id != loop.id:
-                for c in n.calls():
-                    if method_call(c) == (name, "reverse"):
-                        # must lie on every feasible path def -> loop: check dominance-like
-                        p = g.find_path([ds[0].node], lambda x: x == loop.id,
-                                        blocked=lambda x, nn=n.id: x == nn, edge_ok=feas)
-                        if p is None:
-                            flips += 1
-                        else:
-                            raise AnalysisError("H2: conditional in-place reversal that is "
-                                                "not decided by the `reverse` flag")
-    if not (isinstance(base, ast.Call) and dotted(base.func) == "enumerate"):
-        raise AnalysisError(f"H2: environment iteration `{norm(it)}` is outside the enumerated "
-                            f"idioms (enumerate / reversed / [::-1] / .reverse())")
-    # each MPO attaches to its own bond leg: current_edges[<index var>]
+
+    def flips_of(e: ast.AST, at: int, depth: int = 0) -> int:
+        """Number of order reversals between enumerate(...) and the value of e at node `at`."""
+        if depth > 6:
+            raise AnalysisError("H2: environment iteration too deeply nested")
+        if isinstance(e, ast.Call) and dotted(e.func) == "reversed":
+            return 1 + flips_of(e.args[0], at, depth + 1)
+        if isinstance(e, ast.Subscript) and isinstance(e.slice, ast.Slice) \
+                and e.slice.step is not None and norm(e.slice.step) == "-1" \
+                and e.slice.lower is None and e.slice.upper is None:
+            return 1 + flips_of(e.value, at, depth + 1)
+        if isinstance(e, ast.Call) and dotted(e.func) in ("list", "tuple") and len(e.args) == 1:
+            return flips_of(e.args[0], at, depth + 1)
+        if isinstance(e, ast.Call) and dotted(e.func) == "enumerate":
+            return 0
+        if isinstance(e, ast.Name):
+            ds = _feasible_defs(du, e.id, at, feas)
+            if len(ds) != 1 or None in ds:
+                raise AnalysisError(
+                    f"H2: `{e.id}` has no unique definition under reverse={reverse_value}")
+            d = du.defs[next(iter(ds))]
+            if d.value is None or d.sel:
+                raise AnalysisError(f"H2: `{e.id}` is not a plain assignment")
+            n = flips_of(d.value, d.node, depth + 1)
+            # in-place reversals executed on every feasible path between that definition
+            # and `at`
+            for node in g.nodes:
+                for c in node.calls():
+                    if method_call(c) == (e.id, "reverse") and node.id != at:
+                        on_some = g.find_path([d.node], lambda x, t=node.id: x == t,
+                                              edge_ok=feas) is not None and \
+                            g.find_path([node.id], lambda x: x == at, edge_ok=feas) is not None
+                        if not on_some:
+                            continue
+                        avoid = g.find_path([d.node], lambda x: x == at,
+                                            blocked=lambda x, t=node.id: x == t, edge_ok=feas)
+                        if avoid is not None and len(avoid) > 1:
+                            raise AnalysisError("H2: in-place reversal on some but not all "
+                                                "paths for a fixed `reverse` flag")
+                        n += 1
+            return n
+        raise AnalysisError(f"H2: environment iteration `{norm(e)}` is outside the enumerated "
+                            f"idioms (enumerate / list / reversed / [::-1] / .reverse())")
+    flips = flips_of(loop.ast.iter, loop.id)
     tgt = loop.ast.target
     idx_var = tgt.elts[0].id if isinstance(tgt, ast.Tuple) else None
     own_bond = any(isinstance(x, ast.BinOp) and isinstance(x.op, ast.BitXor)
